@@ -6,16 +6,14 @@
                 ref/PrngSTB; the same definition with the opposite one-bit rotation must FAIL it
      FIPS       hand-computable buffers (0x55.., 0x0F.., 0x00.., a 32-bit pattern) and the laws of the
                 run decomposition on seeded buffers
-     calendar   day numbers computed independently, year lengths, the YYMMDD example of tm.h
-     COMBO      32-bit arithmetic of the Marsaglia recurrence (documentation only, see ref/PrngSTB) *)
+     calendar   day numbers computed independently, year lengths, the YYMMDD example of tm.h *)
 EXTENDS PrngSTB, FipsTests, CalDate, TLC
 
 Lcg(n, seed) == FoldLeft(LAMBDA a, i : Append(a, ((a[Len(a)] * 1103) + 12345) % 65521), <<seed>>, Upto(n))
 SeededBuf(seed) == LET g == Lcg(NOctets, seed) IN [i \in 1..NOctets |-> g[i + 1] % 256]
 
-LE4(t) == <<t % 256, (t \div 256) % 256, (t \div 65536) % 256, t \div 16777216>>
 VecNames == {"stb", "stb_otherrot", "stb_prefix", "stb_explicit_z", "echo", "fips55", "fips0F", "fips00", "fips4",
-             "fipslaws1", "fipslaws2", "fipslaws3", "cal", "mul32", "mwc"}
+             "fipslaws1", "fipslaws2", "fipslaws3", "cal"}
 VecOk(n) ==
   CASE n = "stb" -> STBVectorOk
     [] n = "stb_otherrot" -> ~STBVectorOtherRot
@@ -31,12 +29,6 @@ VecOk(n) ==
     [] n = "fipslaws2" -> StatLaws(SeededBuf(2))
     [] n = "fipslaws3" -> StatLaws(RepBuf(15)) /\ StatLaws(<<1, 0, 0, 224, 255>>)
     [] n = "cal" -> CalAnchors
-    \* 0xF8B7BB93 * 0xBEE3B54B mod 2^32 = 0x32CBE311 ; 0xFFFFFFFF^2 = 1 ; (x + y) mod 2^32
-    [] n = "mul32" -> /\ Mul32(<<147, 187, 183, 248>>, <<75, 181, 227, 190>>) = <<17, 227, 203, 50>>
-                      /\ Mul32(<<255, 255, 255, 255>>, <<255, 255, 255, 255>>) = <<1, 0, 0, 0>>
-                      /\ Add32(<<255, 255, 255, 255>>, <<2, 0, 0, 0>>) = <<1, 0, 0, 0>>
-    \* z = 0x1F6B7FBE: 30903 * 0x7FBE + 0x1F6B
-    [] n = "mwc" -> MwcNext(<<190, 127, 107, 31>>) = LE4((30903 * 32702) + 8043)
 
 VARIABLES phase, vname, ok
 VInit == phase = 0 /\ vname = "" /\ ok = TRUE
